@@ -4,6 +4,8 @@
 //!   attr-roundtrip <json>        build the map from bit patterns, to_writer, from_reader; prints bytes and decoded values
 //!   binary-decode <hex>          rbx_binary::from_reader
 //!   binary-decode-db <hex> <db json>   Deserializer with a custom reflection database; bit-exact tree view
+//!   material-colors <json>       MaterialColors encode / decode / get_color on a concrete map or blob
+//!   tags <json>                  Tags encode / decode on concrete names or a blob
 //!   binary-write-sink <room>     rbx_binary::to_writer of a one-Folder DOM into a sink with room for <room> bytes
 use std::io::Read;
 
@@ -273,6 +275,47 @@ pub fn main(args: &[String]) {
             match rbx_binary::Deserializer::new().reflection_database(&db).deserialize(&data[..]) {
                 Ok(dom) => println!("{}", json!({"ok": tree_view(&dom)})),
                 Err(e) => println!("{}", json!({"err": e.to_string()})),
+            }
+        }
+        "material-colors" => {
+            // {"mode":"encode","set":[[name,[r,g,b]],..]} | {"mode":"decode","blob":[..]}
+            use std::str::FromStr;
+            let spec: Value = serde_json::from_str(&args[1]).unwrap();
+            let names = ["Grass", "Slate", "Concrete", "Brick", "Sand", "WoodPlanks", "Rock", "Glacier", "Snow", "Sandstone", "Mud", "Basalt", "Ground", "CrackedLava", "Asphalt", "Cobblestone", "Ice", "LeafyGrass", "Salt", "Limestone", "Pavement"];
+            let colors = |m: &MaterialColors| -> Vec<Vec<u8>> {
+                names.iter().map(|n| { let c = m.get_color(TerrainMaterials::from_str(n).unwrap()); vec![c.r, c.g, c.b] }).collect()
+            };
+            if spec["mode"] == "encode" {
+                let mut m = MaterialColors::new();
+                for e in spec["set"].as_array().unwrap() {
+                    let c = bytes(&e[1]);
+                    m.set_color(TerrainMaterials::from_str(e[0].as_str().unwrap()).unwrap(), Color3uint8::new(c[0], c[1], c[2]));
+                }
+                let blob = m.encode();
+                let back = MaterialColors::decode(&blob);
+                println!("{}", json!({"blob": blob, "colors": colors(&m), "colors_after_roundtrip": back.ok().map(|b| colors(&b))}));
+            } else {
+                let blob = bytes(&spec["blob"]);
+                match MaterialColors::decode(&blob) {
+                    Ok(m) => println!("{}", json!({"decoded": true, "colors": colors(&m), "reencoded": m.encode()})),
+                    Err(e) => println!("{}", json!({"decoded": false, "err": e.to_string()})),
+                }
+            }
+        }
+        "tags" => {
+            // {"mode":"encode","names":[[bytes]..]} | {"mode":"decode","blob":[..]}
+            let spec: Value = serde_json::from_str(&args[1]).unwrap();
+            let list = |t: &Tags| -> Vec<Vec<u8>> { t.iter().map(|s| s.as_bytes().to_vec()).collect() };
+            if spec["mode"] == "encode" {
+                let t: Tags = spec["names"].as_array().unwrap().iter().map(|n| string(n)).collect::<Vec<String>>().into();
+                let blob = t.encode();
+                let back = Tags::decode(&blob);
+                println!("{}", json!({"blob": blob, "tags_after_roundtrip": back.ok().map(|b| list(&b))}));
+            } else {
+                match Tags::decode(&bytes(&spec["blob"])) {
+                    Ok(t) => println!("{}", json!({"tags": list(&t), "reencoded": t.encode()})),
+                    Err(e) => println!("{}", json!({"tags": null, "err": e.to_string()})),
+                }
             }
         }
         "binary-write-sink" => {
